@@ -55,6 +55,10 @@ def ident_int():
     return Gamma("ident_int", int, lambda x: x, dtype=int)
 
 
+def ident_f32():
+    return Gamma("ident_f32", lambda v: np.float32(v), lambda x: x, dtype=np.float32)
+
+
 def affine(a: float, b: float):
     return Gamma(f"affine({a},{b})", lambda v: a * v + b, lambda x: (x - b) / a)
 
@@ -78,9 +82,9 @@ def random_increasing(seed: int):
 
 
 def family(tier: str, seed: int):
-    fam = [ident(), affine(2.5, -7.0)]
+    fam = [ident(), affine(2.5, -7.0), ident_int(), ident_f32()]
     if tier == "thorough":
-        fam += [ident_int(), affine(0.1, 0.3), affine(1e-3, 1e3), random_increasing(seed)]
+        fam += [affine(0.1, 0.3), affine(1e-3, 1e3), random_increasing(seed)]
     return fam
 
 
